@@ -40,23 +40,17 @@ func normalizePath(path string) string {
 }
 
 func vertexIdxStruct(v *gripql.Vertex) map[string]interface{} {
-	k := map[string]interface{}{
-		"v": map[string]interface{}{
-			"label": v.Label,
-			v.Label: v.Data.AsMap(),
-		},
-	}
-	return k
+	// "label" is assigned last: for an element whose label is the word "label" the
+	// label index entry must win over the per-label data stored under the same key
+	d := map[string]interface{}{v.Label: v.Data.AsMap()}
+	d["label"] = v.Label
+	return map[string]interface{}{"v": d}
 }
 
 func edgeIdxStruct(e *gripql.Edge) map[string]interface{} {
-	k := map[string]interface{}{
-		"e": map[string]interface{}{
-			"label": e.Label,
-			e.Label: e.Data.AsMap(),
-		},
-	}
-	return k
+	d := map[string]interface{}{e.Label: e.Data.AsMap()}
+	d["label"] = e.Label
+	return map[string]interface{}{"e": d}
 }
 
 //AddVertexIndex add index to vertices
